@@ -72,7 +72,7 @@ mut('close-join-before-abort', 'File.cpp', [["        /* finalize uncompressedFi
 mut('eos-inside-try', 'File.cpp', [["                file->m_uncompressedFileThreadRunning = false;\n        }\n    } catch (...) {\n        file->m_uncompressedFileThreadException = std::current_exception();\n    }\n\n    /* set end of file (on every way out, otherwise the consumer waits forever) */\n    file->m_readWriteQueue.setFileSize(file->m_readWriteQueue.tellp());\n}",
                                    "                file->m_uncompressedFileThreadRunning = false;\n        }\n\n        /* set end of file */\n        file->m_readWriteQueue.setFileSize(file->m_readWriteQueue.tellp());\n    } catch (...) {\n        file->m_uncompressedFileThreadException = std::current_exception();\n    }\n}"]],
     ['C10'], ['K5|File::uncompressedFileReadThread|m_readWriteQueue|handler:catch(...)'], 'worker leaves through catch(...) without declaring end of stream')
-mut('container-write-no-wait', 'UncompressedFile.cpp', [["    /* wait for free space */\n    tellgChanged.wait(lock, [&] {\n        return\n        m_abort ||\n        ((m_tellp - m_tellg) < m_bufferSize);\n    });\n\n    /* append logContainer */", "    /* append logContainer */"]],
+mut('container-write-no-wait', 'UncompressedFile.cpp', [["    /* wait for free space */\n    tellgChanged.wait(lock, [&] {\n        return\n        m_abort ||\n        ((m_tellp - m_tellg) < m_bufferSize);\n    });\n\n    /* close a partly filled", "    /* close a partly filled"]],
     ['C12'], ['P2|UncompressedFile::write|void (const std::shared_ptr'], 'no back-pressure when appending inflated containers')
 mut('drop-dropolddata', 'File.cpp', [["    if (obj->objectType != ObjectType::Unknown115)\n        currentObjectCount++;\n\n    /* push data into readWriteQueue */\n    m_readWriteQueue.write(obj);\n\n    /* drop old data */\n    m_uncompressedFile.dropOldData();\n", "    if (obj->objectType != ObjectType::Unknown115)\n        currentObjectCount++;\n\n    /* push data into readWriteQueue */\n    m_readWriteQueue.write(obj);\n"]],
     ['C12'], ['P3|File::uncompressedFile2ReadWriteQueue'], 'consumed containers are never released')
@@ -186,6 +186,17 @@ mut('gcount-not-accumulated', 'UncompressedFile.cpp', [["        m_gcount += gco
 mut('short-read-off-by-one', 'UncompressedFile.cpp', [["        n = m_fileSize - m_tellg;", "        n = m_fileSize - m_tellg - 1;"]],
     ['C15'], ['R2|read|short-at-end'], 'the last byte before the declared end is never delivered')
 
+CUT = '    /* close a partly filled log container, so that the appended one continues at the put position */\n    std::shared_ptr<LogContainer> lastLogContainer = logContainerContaining(m_tellp);\n    if (lastLogContainer) {\n        std::streamoff offset = m_tellp - lastLogContainer->filePosition;\n        lastLogContainer->uncompressedFile.resize(offset);\n        lastLogContainer->uncompressedFileSize = offset;\n    }\n\n'
+mut('append-without-closing-tail', 'UncompressedFile.cpp', [[CUT, ""]],
+    ['C15'], ['R3|UncompressedFile::write/container'], 'a whole container appended onto a partly filled one: the older container keeps answering for the overlapping positions')
+mut('append-closes-at-get-position', 'UncompressedFile.cpp', [["        std::streamoff offset = m_tellp - lastLogContainer->filePosition;\n        lastLogContainer->uncompressedFile.resize(offset);",
+                                                                 "        std::streamoff offset = m_tellg - lastLogContainer->filePosition;\n        lastLogContainer->uncompressedFile.resize(offset);"]],
+    ['C15'], ['R3|UncompressedFile::write/container'], 'the partly filled container is cut at the get position instead of the put position')
+mut('append-at-get-position', 'UncompressedFile.cpp', [["    m_data.push_back(logContainer);\n    logContainer->filePosition = m_tellp;", "    m_data.push_back(logContainer);\n    logContainer->filePosition = m_tellg;"]],
+    ['C15'], ['R3|UncompressedFile::write/container'], 'appended container starts at the get position')
+mut('new-container-chains-from-front', 'UncompressedFile.cpp', [["                    m_data.back()->uncompressedFileSize +\n                    m_data.back()->filePosition;", "                    m_data.back()->uncompressedFileSize +\n                    m_data.front()->filePosition;"]],
+    ['C15'], ['R3|UncompressedFile::write|'], 'a new container starts at front.filePosition + back.size: overlaps as soon as two containers are buffered')
+
 # ------------------------------------------------------------------ benign refactorings (must stay silent)
 ALL_LAYOUT = ['C01', 'C02', 'C03', 'C10', 'C14']
 ben('reorder-size-terms', 'AppText.cpp', [["        sizeof(source) +\n        sizeof(reservedAppText1) +", "        sizeof(reservedAppText1) +\n        sizeof(source) +"]], ALL_LAYOUT)
@@ -214,6 +225,13 @@ ben('factory-return-style', 'File.cpp', [["    case ObjectType::CAN_ERROR:\n    
 ben('close-statistics-reordered', 'File.cpp', [["        fileStatistics.fileSize = static_cast<uint64_t>(m_compressedFile.tellp());\n        fileStatistics.uncompressedFileSize = currentUncompressedFileSize;\n        fileStatistics.objectCount = currentObjectCount;", "        fileStatistics.objectCount = currentObjectCount;\n        fileStatistics.uncompressedFileSize = currentUncompressedFileSize;\n        fileStatistics.fileSize = static_cast<uint64_t>(m_compressedFile.tellp());"]], ['C05', 'C04', 'C13'])
 ben('stream-read-renamed-locals', 'UncompressedFile.cpp', [["        std::streamoff offset = m_tellg - logContainer->filePosition;\n\n        /* copy data */\n        std::streamsize gcount = std::min(n, static_cast<std::streamsize>(logContainer->uncompressedFileSize - offset));\n        std::copy(logContainer->uncompressedFile.cbegin() + offset, logContainer->uncompressedFile.cbegin() + offset + gcount, s);\n\n        /* remember get count */\n        m_gcount += gcount;\n\n        /* new get position */\n        m_tellg += gcount;\n\n        /* advance */\n        s += gcount;\n\n        /* calculate remaining data to copy */\n        n -= gcount;",
                                                                    "        std::streamoff off = m_tellg - logContainer->filePosition;\n\n        /* copy data */\n        std::streamsize cnt = std::min(n, static_cast<std::streamsize>(logContainer->uncompressedFileSize - off));\n        std::copy(logContainer->uncompressedFile.cbegin() + off, logContainer->uncompressedFile.cbegin() + off + cnt, s);\n\n        /* remember get count */\n        m_gcount += cnt;\n\n        /* new get position */\n        m_tellg += cnt;\n\n        /* advance */\n        s += cnt;\n\n        /* calculate remaining data to copy */\n        n -= cnt;"]], ['C10', 'C11', 'C07', 'C06', 'C15'])
+ben('append-cut-without-offset-local', 'UncompressedFile.cpp', [["        std::streamoff offset = m_tellp - lastLogContainer->filePosition;\n        lastLogContainer->uncompressedFile.resize(offset);\n        lastLogContainer->uncompressedFileSize = offset;",
+                                                                    "        lastLogContainer->uncompressedFile.resize(m_tellp - lastLogContainer->filePosition);\n        lastLogContainer->uncompressedFileSize = lastLogContainer->uncompressedFile.size();"]], ['C10', 'C15'])
+ben('append-position-before-push', 'UncompressedFile.cpp', [["    m_data.push_back(logContainer);\n    logContainer->filePosition = m_tellp;", "    logContainer->filePosition = m_tellp;\n    m_data.push_back(logContainer);"]], ['C10', 'C12', 'C15'])
+ben('chain-through-local-last', 'UncompressedFile.cpp', [["                logContainer->filePosition =\n                    m_data.back()->uncompressedFileSize +\n                    m_data.back()->filePosition;",
+                                                             "                const std::shared_ptr<LogContainer> & last = m_data.back();\n                logContainer->filePosition = last->uncompressedFileSize + last->filePosition;"]], ['C10', 'C12', 'C15'])
+ben('append-cut-early-return-form', 'UncompressedFile.cpp', [["    if (lastLogContainer) {\n        std::streamoff offset = m_tellp - lastLogContainer->filePosition;\n        lastLogContainer->uncompressedFile.resize(offset);\n        lastLogContainer->uncompressedFileSize = offset;\n    }\n",
+                                                                 "    if (lastLogContainer != nullptr) {\n        const std::streamoff used = m_tellp - lastLogContainer->filePosition;\n        lastLogContainer->uncompressedFileSize = used;\n        lastLogContainer->uncompressedFile.resize(used);\n    }\n"]], ['C10', 'C15'])
 ben('header-guard-positive-form', 'File.cpp', [["    if (ohb.objectSize < ohb.calculateHeaderSize()) {\n        /* an object cannot be smaller than its header; skipping by such a size would never advance */\n        throw Exception(\"File::uncompressedFile2ReadWriteQueue(): Object size is smaller than the object header.\");\n    }\n",
                                                   "    if (!(ohb.objectSize >= ohb.calculateHeaderSize())) {\n        throw Exception(\"File::uncompressedFile2ReadWriteQueue(): Object size is smaller than the object header.\");\n    }\n"]], ['C10', 'C09', 'C08', 'C01'])
 ben('close-extract-helpers', 'File.cpp', [["void File::close() {\n    /* check if file is open */\n    if (!is_open())\n        return;\n\n    /* read */\n    if (m_openMode & std::ios_base::in) {\n        /* finalize compressedFileThread */\n        m_compressedFileThreadRunning = false;\n        m_compressedFile.close();\n\n        /* finalize uncompressedFileThread */\n        m_uncompressedFileThreadRunning = false;\n        m_uncompressedFile.abort();\n\n        /* abort readWriteQueue */\n        m_readWriteQueue.abort();\n\n        /* finalize compressedFileThread */\n        if (m_compressedFileThread.joinable())\n            m_compressedFileThread.join();\n\n        /* finalize uncompressedFileThread */\n        if (m_uncompressedFileThread.joinable())\n            m_uncompressedFileThread.join();\n    }\n",
